@@ -119,9 +119,17 @@ func runCase(t pbt.TB, c Case) {
 	steps := c.Steps
 	final := ""
 	body := steps
+	limitN := int64(-1)
 	if last := steps[len(steps)-1]; last.Op == "path" || last.Op == "count" {
 		final = last.Op
 		body = steps[:len(steps)-1]
+	} else if last.Op == "limit" {
+		// a limit behind the loop: it is satisfied (and cancels the pipeline) while
+		// travelers may still be cycling; exactly min(n, N) of the loop's rows must
+		// arrive and the stream must close
+		limitN = last.N
+		body = steps[:len(steps)-1]
+		pbt.Class(t, "limit-behind-loop")
 	}
 	ref, err := refRun(c.Graph, body, 400000)
 	if err != nil {
@@ -213,6 +221,22 @@ func runCase(t pbt.TB, c Case) {
 			}
 			cancel()
 			sort.Strings(got)
+			if limitN >= 0 {
+				wantN := int(min(limitN, int64(len(want))))
+				d := ""
+				if len(got) != wantN {
+					d = fmt.Sprintf("%d rows, want min(limit %d, %d rows of the loop) = %d", len(got), limitN, len(want), wantN)
+				} else if !gripx.SubMultiset(got, want) {
+					d = "rows that the loop does not produce: " + gripx.DiffMultiset(got, want)
+				}
+				if d != "" {
+					bad++
+					if firstDiff == "" {
+						firstDiff, firstSig = fmt.Sprintf("GOMAXPROCS=%d run %d: %s", p, r, d), "limit-behind-loop"
+					}
+				}
+				continue
+			}
 			if d := gripx.DiffMultiset(got, want); d != "" {
 				bad++
 				if firstDiff == "" {
@@ -412,11 +436,13 @@ func genProgram(rt *rapid.T, g *model.Graph) []model.Step {
 		}
 		steps = kept
 	}
-	switch rapid.IntRange(0, 4).Draw(rt, "tail") {
+	switch rapid.IntRange(0, 5).Draw(rt, "tail") {
 	case 0:
 		steps = append(steps, S("count"))
 	case 1:
 		steps = append(steps, S("path"))
+	case 2:
+		steps = append(steps, model.Step{Op: "limit", N: int64(rapid.SampledFrom([]int{0, 1, 2, 5, 10, 60, 1100}).Draw(rt, "limit"))})
 	}
 	return steps
 }
